@@ -226,6 +226,9 @@ type c10Case struct {
 	Src  string       `json:"src,omitempty"`
 	Seed uint64       `json:"seed"`
 	Kind string       `json:"kind"`
+	// Any: the source is used whether or not it is accepted (beyond the stated
+	// quantifier; the statement itself does not depend on acceptance)
+	Any bool `json:"any,omitempty"`
 }
 
 type failingScanner struct {
@@ -284,18 +287,21 @@ func c10Exec(c *core.Ctx, cs c10Case) {
 		src = gen.Join(gen.Tokens(cs.Prog, true), pol).Text
 	}
 	cmds0, com0, err0 := parseAll("c10", src)
-	if err0 != nil {
+	if err0 != nil && !cs.Any {
 		c.Skip("source not accepted (only accepted programs are used)")
 		return
 	}
-	want := skel.Cmds(cmds0, skel.Strict) + fmt.Sprint(commentTextsOf(com0))
+	if err0 != nil {
+		c.Count("programs-rejected-without-fault", 1)
+	}
+	want := skel.Cmds(cmds0, skel.Strict) + fmt.Sprint(commentTextsOf(com0)) + c10Err(err0)
 	rs := []rune(src)
 	for k := 0; k <= len(rs); k++ {
 		inj := fmt.Errorf("injected read failure at rune %d", k)
 		fs := &failingScanner{rs: rs, k: k, err: inj}
 		cmds, com, err := parser.ParseCommands(nil, "c10", fs)
 		c.Eval(1)
-		c10Judge(c, fmt.Sprintf("RuneScanner k=%d of %d | %s", k, len(rs), q(src)), fs.delivered, inj, err, skel.Cmds(cmds, skel.Strict)+fmt.Sprint(commentTextsOf(com)), want, rs, k)
+		c10Judge(c, fmt.Sprintf("RuneScanner k=%d of %d | %s", k, len(rs), q(src)), fs.delivered, inj, err, skel.Cmds(cmds, skel.Strict)+fmt.Sprint(commentTextsOf(com))+c10Err(err), want, rs, k)
 	}
 	b := []byte(src)
 	for k := 0; k <= len(b); k++ {
@@ -309,12 +315,19 @@ func c10Exec(c *core.Ctx, cs c10Case) {
 		fr := &failingReader{b: b, k: k, err: inj}
 		cmds, com, err := parser.ParseCommands(nil, "c10", io.Reader(fr))
 		c.Eval(1)
-		c10Judge(c, fmt.Sprintf("Reader k=%d of %d | %s", k, len(b), q(src)), fr.delivered, inj, err, skel.Cmds(cmds, skel.Strict)+fmt.Sprint(commentTextsOf(com)), want, nil, k)
+		c10Judge(c, fmt.Sprintf("Reader k=%d of %d | %s", k, len(b), q(src)), fr.delivered, inj, err, skel.Cmds(cmds, skel.Strict)+fmt.Sprint(commentTextsOf(com))+c10Err(err), want, nil, k)
 	}
 	c.Count("programs", 1)
 	if c.Index()%307 == 0 {
 		c.Sample(map[string]any{"source": src, "fault_positions": len(rs) + len(b) + 2})
 	}
+}
+
+func c10Err(err error) string {
+	if err == nil {
+		return ""
+	}
+	return " error: " + err.Error()
 }
 
 func c10Judge(c *core.Ctx, key string, delivered int, inj, err error, got, want string, rs []rune, k int) {
@@ -337,7 +350,7 @@ func c10Judge(c *core.Ctx, key string, delivered int, inj, err error, got, want 
 		return
 	}
 	c.Count("faults-not-reached", 1)
-	if err != nil || got != want {
+	if got != want {
 		c.Violation("unreached-fault-changed-result", key, want, fmt.Sprintf("%s err=%v", got, err), "")
 	}
 }
@@ -361,8 +374,22 @@ func c10Gen(c *core.Ctx) {
 		}
 	}
 	c01TokenStrings(c.Pick(2, 3), func(s string) {
-		core.Do(c, c10Case{Src: s, Kind: "token-string"}, c10Exec)
+		core.Do(c, c10Case{Src: s, Kind: "token-string", Any: true}, c10Exec)
 	})
+	// damaged programs: the syntax error and the reader fault compete
+	nm := c.Pick(1500, 30000)
+	for i := 0; i < nm; i++ {
+		if !c.Mine() {
+			continue
+		}
+		r := c.Rand("mut", int64(i))
+		p := gen.New(r, gen.Options{Budget: 2 + r.IntN(6), Flat: i%2 == 0}).Program()
+		b := c01Mutate(r, []byte(gen.Join(gen.Tokens(p, true), nil).Text))
+		if !utf8.Valid(b) || bytes.IndexByte(b, 0) >= 0 || len(b) > 120 {
+			continue
+		}
+		core.Run(c, c10Case{Src: string(b), Kind: "mutation", Any: true}, c10Exec)
+	}
 }
 
 func init() {
@@ -386,9 +413,9 @@ func init() {
 	core.Register(&core.Engine{
 		ID:          "C10",
 		Level:       "fault_enumeration",
-		Technique:   "runtime monitoring with fault injection at the source reader: complete single-fault enumeration — for every accepted program and every rune index k (io.RuneScanner) and byte index k (io.Reader through bufio) the reader starts failing at k with a unique sentinel; the returned error must be that sentinel (errors.Is)",
-		Rule:        "a case is an accepted source (500 / thorough 20000 generated programs in random layouts, 53 dedicated sources, every accepted string of <=2 (thorough <=3) tokens of the C01 alphabet); for each, EVERY k in [0, len] for both source kinds. A fault that was delivered must come back as the error; a fault that was never reached must leave the result equal to the fault-free parse. distinct_nontrivial = distinct (character before the fault, on first line or not) contexts in which a fault was delivered.",
-		Assumptions: []string{"only accepted programs: on a viable prefix there can be no genuine syntax error before the failing read"},
+		Technique:   "runtime monitoring with fault injection at the source reader: complete single-fault enumeration — for every program and every rune index k (io.RuneScanner) and byte index k (io.Reader through bufio) the reader starts failing at k with a unique sentinel; the returned error must be that sentinel (errors.Is)",
+		Rule:        "a case is a source: accepted ones (3000 / thorough 60000 generated programs in random layouts, dedicated sources, some repeated 4 times) and, beyond the stated quantifier, sources of any verdict (every string of <=2 (thorough <=3) tokens of the C01 alphabet, 1500 (thorough 30000) byte-mutated programs, where a genuine syntax error and the reader fault compete); for each, EVERY k in [0, len] for both source kinds. A fault that was delivered must come back as the error; a fault that was never reached must leave the result equal to the fault-free parse. distinct_nontrivial = distinct (character before the fault, on first line or not) contexts in which a fault was delivered.",
+		Assumptions: []string{"literal reading of the statement for rejected sources: whenever the reader actually returned its error during the call (observed at the reader, not assumed), that error is what ParseCommands returns, even if a genuine syntax error precedes it; a fault the call never reached must leave commands, comments and error text equal to the fault-free parse"},
 		Gen:         c10Gen,
 		Replay:      func(c *core.Ctx, raw []byte) { core.ReplayOne(c, raw, c10Exec) },
 		Exhaustive:  func(string) bool { return true },
